@@ -8,6 +8,7 @@ import (
 	"runtime"
 	"sort"
 	"sync"
+	"sync/atomic"
 	"time"
 
 	"github.com/pgavlin/dawn/internal/verifhook"
@@ -24,6 +25,10 @@ type Node struct {
 	// Tolerant targets carry on with their remaining requests and their body after a dependency
 	// failed (a runner.Target may do that; dawn's own targets give up).
 	Tolerant bool `json:"tolerant,omitempty"`
+	// Barrier nodes wait (spinning, at most 2 ms) until every barrier node of the case has arrived,
+	// right before their first dependency request: free-running cases only. This aligns dependents
+	// that request the same fresh targets to within a few hundred nanoseconds.
+	Barrier bool `json:"barrier,omitempty"`
 	Yields  int     `json:"yields,omitempty"` // scheduling points inside the body
 }
 
@@ -77,6 +82,16 @@ type Obs struct {
 	Res        cosched.Result
 	Sched      *cosched.S
 	Panic      any
+
+	barrierWant    int
+	barrierArrived atomic.Int32
+}
+
+func (o *Obs) barrier() {
+	o.barrierArrived.Add(1)
+	deadline := time.Now().Add(2 * time.Millisecond)
+	for int(o.barrierArrived.Load()) < o.barrierWant && time.Now().Before(deadline) {
+	}
 }
 
 func label(i int) string { return fmt.Sprintf("n%d", i) }
@@ -129,6 +144,9 @@ func (t *tgt) Evaluate(engine runner.Engine) (err error) {
 		o.mu.Unlock()
 	}()
 	depFailed := false
+	if n.Barrier && o.c.Pol.Mode == "jitter" {
+		o.barrier()
+	}
 	for _, req := range n.Reqs {
 		labels := make([]string, len(req))
 		for i, d := range req {
@@ -205,6 +223,11 @@ func Execute(c *Case, watchdog time.Duration) *Obs {
 	o := &Obs{c: c, Limit: runtime.NumCPU(),
 		Loads: make([]int, n), Evals: make([]int, n), Finished: make([]bool, n), Outcome: make([]error, n),
 		Objects: make([]*tgt, n), Started: make([]bool, n), requested: make([]int, n)}
+	for _, nd := range c.Nodes {
+		if nd.Barrier {
+			o.barrierWant++
+		}
+	}
 	s := cosched.New(c.Pol)
 	o.Sched = s
 	s.Install()
